@@ -119,11 +119,13 @@ def run(tier, replay=None):
         plan = [(S["core_maths"], n) for n in (1, 2, 3, 4, 5)] + [(S["ext_maths"], 4), (S["base_e_maths"], 3), (S["keep_duplicates"], 3)]
         plan += [(b, 3) for b in bases.sub_bases()[::3]]
         plan += [(b, n) for b in bases.arith_bases() for n in (1, 3, 5)]
+        plan += [(bases.USER_STYLE["verif_ax"], 4)]
     else:
         plan = [(S[k], n) for k in S for n in (1, 2, 3, 4)] + [(S["core_maths"], 5), (S["core_maths"], 6), (S["ext_maths"], 5),
                 (S["osc_maths"], 5), (S["base_e_maths"], 5), (S["base10_maths"], 5)]
         plan += [(b, n) for b in bases.sub_bases() for n in (2, 3, 4, 5)]
         plan += [(b, n) for b in bases.arith_bases() for n in (1, 2, 3, 5, 7)]
+        plan += [(b, n) for b in bases.USER_STYLE.values() for n in (3, 4)]
     for basis, n in plan:
         _labelled(r, g, np, s, basis, n)
     r.cov["rule"] = ("shapes: every arity string in {0,1,2}^n starting with 1 or 2 (n<=%d) is one behaviour of the placement machine; "
